@@ -71,6 +71,22 @@ impl SaslMechanisms {
     ensures r.sasl_server_mechanisms.0@.len() == 1 && r.sasl_server_mechanisms.0@[0]@ == ANONYMOUS@,       // [C19.mechanisms.default-offers-anonymous] AMQP 1.0 part 5, 5.3.3.1: a peer that does not require authentication sends the one-element list ANONYMOUS -- never an empty one
 //@@ end
 
+}
+/// a listener's SASL acceptor, as far as the advertisement goes: the mechanisms it is configured with
+pub struct AcceptorS { pub mechs: Array<Symbol> }
+impl AcceptorS {
+    #[verifier::external_body]
+    pub fn mechanisms(&self) -> (r: Array<Symbol>) ensures r == self.mechs { unimplemented!() }
+//@@ fn file=fe2o3-amqp/src/acceptor/sasl_acceptor.rs impl=`~SaslAcceptorExt:SaslAcceptor` name=sasl_mechanisms
+//@@ subst `server_mechanisms.0.is_empty()` => `(server_mechanisms.0.len() == 0)` rule=R9
+//@@ subst `SaslMechanisms::default()` => `SaslMechanisms::default()` rule=optional
+//@@ spec
+    ensures
+        self.mechs.0@.len() > 0 ==> r.sasl_server_mechanisms == self.mechs,       // [C19.listener.advertises-exactly-its-mechanisms] a listener configured with SASL mechanisms advertises exactly those: ANONYMOUS is not added to them (a peer is never invited to skip authentication on a listener that requires it)
+        self.mechs.0@.len() == 0 ==> r.sasl_server_mechanisms.0@.len() == 1 && r.sasl_server_mechanisms.0@[0]@ == ANONYMOUS@,       // [C19.mechanisms.default-offers-anonymous] only an acceptor with NO mechanism offers the one-element list ANONYMOUS (the list must not be empty, 5.3.3.1)
+//@@ end
+}
+impl SaslMechanisms {
 //@@ fn file=fe2o3-amqp-types/src/sasl/mechanisms.rs impl=`impl serde_amqp::serde::ser::Serialize for SaslMechanisms` name=serialize dropuses
 //@@ qmark
 //@@ generics
